@@ -135,7 +135,8 @@ where
     }
 
     fn early_exit(&self) {
-        self.counter().store(self.range.end.into())
+        // positions are counted from zero: the length, rather than the end value of the range, is the first position out of bounds
+        self.counter().store(self.initial_len())
     }
 }
 
